@@ -212,8 +212,11 @@ structure LoopRow where
   kind : MsgKind
   /-- width in bytes of the padding character (1 = ASCII) -/
   width : Nat
-  /-- byte offset the padding was arranged around: a `width`-byte character straddles it -/
-  cut : Nat
+  /-- byte offset at which the run of padding characters begins … -/
+  start : Nat
+  /-- … and how many of them there are (61: one cut point is straddled; > 270: the run spans
+  every plausible cut point up to byte 1100) -/
+  run : Nat
   ended : LoopEnded
   deriving DecidableEq, Repr
 
@@ -310,11 +313,14 @@ def Via.isPublic : Via → Bool
 def complete (t : List Row) : Bool :=
   (t.filter (·.via.isPublic)).map (fun r => (r.via, r.proto, r.st)) == mandatory
 
-/-- no observed session was left open but not listening, and all error kinds were observed with
-logging off and on and a multi-byte character at the cut -/
+/-- no observed session was left open but not listening, and every error kind was observed with
+logging off and on, with a multi-byte character at byte 100 and with dense runs of 2-, 3- and
+4-byte characters in every alignment -/
 def loopQuiet (lt : List LoopRow) : Bool :=
   lt.all (fun r => r.ended != .wedged)
-  && errorKinds.all (fun k => lt.any (fun r => r.kind == k && r.verbose && r.width > 1)
-                            && lt.any (fun r => r.kind == k && !r.verbose && r.width > 1))
+  && errorKinds.all (fun k => [true, false].all fun v =>
+      lt.any (fun r => r.kind == k && r.verbose == v && r.width > 1 && r.start == 99)
+      && [2, 3, 4].all fun w =>
+          (lt.filter fun r => r.kind == k && r.verbose == v && r.width == w && r.run > 270).length ≥ w)
 
 end Aiorpcx.C05
